@@ -559,6 +559,10 @@ func propC19(a *Analysis, r *Registry) {
 					if hf := a.W.Fn(ca.Name); hf != nil && isMembershipScan(X, hf) {
 						scan = true
 					}
+					// (package slices' own membership test)
+					if strings.HasPrefix(ca.Name, "slices.Contains[") {
+						scan = true
+					}
 				}
 			}
 			if scan {
